@@ -8,9 +8,7 @@ UNIT = dict(
         "rand::Rng::gen::<f64>() returns the generator's next uniform variate (assumed contract on rand; trait restated in prelude/rand_stub.rs)",
     ],
     items=[
-        dict(raw="""pub open spec fn cum(p: Seq<f64>, k: int) -> real decreases k {
-    if k <= 0 { 0real } else { cum(p, k - 1) + rv(p[k - 1]) }
-}"""),
+        dict(raw=open(P + "multinomial_spec.rs").read()),
         dict(file="src/solve/multinomial.rs", path="struct Multinomial", pub_fields=True),
         dict(file="src/solve/multinomial.rs", path="impl Multinomial", members=[
             dict(path="fn new", ret="r", vis="pub ", obligation="C10.V.multinomial.new",
@@ -22,6 +20,7 @@ ensures
             dict(path="fn sample", ret="res", obligation="C10.V.multinomial.inverse_cdf", n_loops=1,
                  contract="""ensures
     res <= self.init_probs@.len(), // @ob C10.V.multinomial.index_in_range
+    inv_cdf(self.init_probs@, old(rnd).next_f64(), res as int), // @ob C10.V.multinomial.inverse_cdf
     // k is returned exactly when the variate lies in the k-th cumulative-probability interval:
     forall|j: int| 0 < j <= res ==> cum(self.init_probs@, j) < rv(old(rnd).next_f64()), // @ob C10.V.multinomial.inverse_cdf
     res < self.init_probs@.len() ==> rv(old(rnd).next_f64()) <= cum(self.init_probs@, res as int + 1), // @ob C10.V.multinomial.inverse_cdf""",
